@@ -403,7 +403,10 @@ def noteperf(ctx):
   ok = len(lst) == 1 and len(lst[0].value.elts) == 6
   ctx.ob('NOTEPERF/blocks', init, lst[0] if lst else init.node, ok, 'six one-hot blocks for the six label components' if ok else 'the number of one-hot blocks differs from the six label components')
   ei = ci.methods['events_to_input']
-  ok = any(isinstance(s, ast.Assign) and norm_text(s.value) == '[0.0] * self._num_classes[i]' for s in U.walk_stmts(ei.node))
+  # whatever the loop variable is called: [0.0] * self._num_classes[<index>]
+  ok = any(isinstance(s, ast.Assign) and isinstance(s.value, ast.BinOp) and isinstance(s.value.op, ast.Mult) and norm_text(s.value.left) == '[0.0]' and
+           isinstance(s.value.right, ast.Subscript) and norm_text(s.value.right.value) == 'self._num_classes' and isinstance(s.value.right.slice, ast.Name)
+           for s in U.walk_stmts(ei.node))
   ctx.ob('NOTEPERF/blocks', ei, ei.node, ok, 'block i has width _num_classes[i]' if ok else 'the one-hot blocks are not sized by _num_classes[i]', construct='note-performance block widths')
 
 
